@@ -77,6 +77,9 @@ ASSUMPTIONS = [
     "context leaves are ints and strings; rendering a dictionary with str() (a formatting field that names a "
     "sub-dictionary) is outside the model (poison leaf `bad`) and is never generated",
     "templates are well-formed double-brace templates, given to the model parsed (the scanner of format_context is C08's)",
+    "run-time elements that update a value's context in place are represented by UpdateContextFromStatic, MakeFilename "
+    "and a user mutator element (update_recursively(context, key, value)); the oracle requires the state of every "
+    "element after the run to equal its state before the run",
     "Split is built with bufsize=None (the whole flow is one buffer), Cache with recompute=True and at most one Cache in a "
     "tree whose flow is run (an existing cache file would replace the flow: C18), flow data are ints (Write passes them on)",
 ]
@@ -84,7 +87,11 @@ RULE = ("quick: all trees with <= 2 leaves over 9 leaf kinds (SetContext constan
         "UpdateContextFromStatic, MakeFilename, Write, Cache, plain element), depth <= 2, Sequence and Source tops; a seeded "
         "sample of 6000 trees with 3 leaves over 7 leaf kinds; 4000 seeded random trees of depth <= 3 (Sequence / "
         "Source / tuple branches, 0-3 Split branches, 6 keys, 7 formatting fields incl. unresolvable ones) each with two "
-        "causality variants (everything after a probe / sibling branches replaced) and a run-time flow out of 5.  thorough: "
+        "causality variants (everything after a probe / sibling branches replaced) and a run-time flow out of 7 (1-3 values); "
+        "a directed family of ~290 trees for run-time aliasing (nested static key, UpdateContextFromStatic/MakeFilename, a "
+        "later in-place update of the run-time context below the same parent by a user mutator, a second "
+        "UpdateContextFromStatic or MakeFilename; flat, nested, in a Split branch; three values without the key); every "
+        "element's static state and names are read before and again after the run.  thorough: "
         "all trees with <= 3 leaves over the 9 leaf kinds, all trees with 4 leaves over 4 core leaf kinds, 100 000 random "
         "trees.  Non-trivial: some element saw a non-empty context or "
         "derived a formatted name.")
